@@ -10,6 +10,7 @@ use crate::sched;
 use flacenc::config;
 use serde_json::json;
 use std::num::NonZeroUsize;
+use md5::Digest as _;
 use std::sync::Arc;
 
 type Oracle = fn(&Ctx, &str, u64, &Case, &Observed, &mut Outcome);
@@ -292,8 +293,11 @@ pub fn par_case(rng: &mut Rng, max_samples: usize) -> Case {
 /// set by late frames (amplitude ramps up or down over the stream), long runs of the hash queue.
 pub fn manyframes_case(rng: &mut Rng) -> Case {
     let block = *rng.pick(&[32usize, 32, 33, 48, 64]);
-    let frames = *rng.pick(&[1030usize, 1100, 1500, 2047, 2048, 2050, 2600]);
-    let channels = *rng.pick(&[1usize, 1, 2]);
+    // one case in twenty crosses 2^16 frames (4-byte coded frame numbers)
+    let huge = rng.chance(1, 20);
+    let frames = if huge { 65_530 + rng.usize_below(80) } else { *rng.pick(&[1030usize, 1100, 1500, 2047, 2048, 2050, 2600]) };
+    let block = if huge { 32 } else { block };
+    let channels = if huge { 1 } else { *rng.pick(&[1usize, 1, 2]) };
     let bps = *rng.pick(&gen::WIDTHS);
     let len = frames * block + if rng.flip() { rng.usize_below(block) } else { 0 };
     let up = rng.flip();
@@ -309,6 +313,9 @@ pub fn manyframes_case(rng: &mut Rng) -> Case {
     let mut cfg = gen::gen_config(rng, &ConfigOpts { multithread: None, min_max_parameter: 8 });
     cfg.block_size = block;
     cfg.subframe_coding.qlpc.lpc_order = cfg.subframe_coding.qlpc.lpc_order.min(8);
+    if huge {
+        cfg.subframe_coding.use_lpc = false;
+    }
     Case {
         audio: Arc::new(Audio { channels, bps, rate: 44100, samples, recipe: format!("ramp_{}_noise {frames} frames", if up { "up" } else { "down" }) }),
         cfg,
@@ -399,6 +406,49 @@ pub fn run_c01(ctx: &Ctx) -> i32 {
     finish(ctx, out, fin)
 }
 
+/// Generating source for streams longer than 2^32 samples (1 channel, 8 bit).
+struct GiantSource {
+    total: u64,
+    pos: u64,
+    hint: bool,
+    salt: u64,
+    md5: md5::Md5,
+    reads: u64,
+    bytes_mode: bool,
+}
+
+impl flacenc::source::Source for GiantSource {
+    fn channels(&self) -> usize {
+        1
+    }
+    fn bits_per_sample(&self) -> usize {
+        8
+    }
+    fn sample_rate(&self) -> usize {
+        8000
+    }
+    fn read_samples<F: flacenc::source::Fill>(&mut self, block_size: usize, dest: &mut F) -> Result<usize, flacenc::error::SourceError> {
+        use md5::Digest;
+        let n = (block_size as u64).min(self.total - self.pos) as usize;
+        let value = (crate::prng::mix(self.salt ^ self.reads) & 0xFF) as u8 as i8;
+        self.reads += 1;
+        if self.bytes_mode {
+            let block = vec![value as u8; n];
+            dest.fill_le_bytes(&block, 1)?;
+            self.md5.update(&block);
+        } else {
+            let block = vec![i32::from(value); n];
+            dest.fill_interleaved(&block)?;
+            self.md5.update(&vec![value as u8; n]);
+        }
+        self.pos += n as u64;
+        Ok(n)
+    }
+    fn len_hint(&self) -> Option<usize> {
+        self.hint.then_some(self.total as usize)
+    }
+}
+
 fn stream_placeholder() -> flacenc::component::Stream {
     flacenc::component::Stream::new(8000, 1, 8).unwrap()
 }
@@ -433,6 +483,89 @@ pub fn run_c03(ctx: &Ctx) -> i32 {
         }
         if case.audio.frames() > 0 {
             out.distinct.insert(case.key());
+        }
+    });
+    // streams of more than 2^32 inter-channel samples (the total-samples field has 36 bits):
+    // a generating source of 8-bit mono blocks that are constant within a block (cheap to encode)
+    // and differ between blocks (order-sensitive for MD5); nothing is decoded - only STREAMINFO
+    // and the frame count are compared with what the source handed over and hashed itself
+    let ngiant = if std::env::var("VERIF_NO_GIANT").is_ok() || cfg!(miri) { 0 } else { ctx.tier.pick(0, 4) };
+    run_cases(ctx, "giant", ngiant, &mut out, |idx, out| {
+        let mut rng = Rng::for_case(ctx.seed, "C03.giant", idx);
+        let total: u64 = (1u64 << 32) + rng.below(100_000);
+        let block = *rng.pick(&[32_767usize, 16_384, 20_000]);
+        let mt = idx % 2 == 1;
+        let hint = idx % 4 >= 2;
+        let mut src = GiantSource { total, pos: 0, hint, salt: rng.next_u64(), md5: md5::Md5::new(), reads: 0, bytes_mode: idx % 3 != 0 };
+        let mut cfg = config::Encoder::default();
+        cfg.multithread = mt;
+        cfg.workers = NonZeroUsize::new(4);
+        cfg.block_size = block;
+        let desc = json!({"total_samples": total, "block": block, "multithread": mt, "len_hint": hint, "format": "1 ch x 8 bit, constant within a block, value differs per block"});
+        let rp = || json!({"monitor": "C03", "sub": "giant", "index": idx, "seed": ctx.seed, "tier": ctx.tier.name(), "case": desc});
+        let Ok(v) = enc::verified(&cfg) else { return };
+        let r = crate::common::catch(|| flacenc::encode_with_fixed_block_size(&v, &mut src, block));
+        out.evaluations += 1;
+        match r {
+            Ok(Ok(stream)) => {
+                use md5::Digest;
+                let want_md5: [u8; 16] = src.md5.clone().finalize().into();
+                let want_frames = ((total + block as u64 - 1) / block as u64) as usize;
+                out.distinct.insert(crate::prng::hash_str(&desc.to_string()));
+                out.max("largest_total_samples_encoded", total);
+                if stream.frame_count() != want_frames {
+                    out.violation("C03|giant|frame-count", format!("{} frames for {total} samples at block {block}", stream.frame_count()), rp());
+                }
+                // serialise STREAMINFO only
+                match enc::to_bytes(stream.stream_info()) {
+                    Ok(b) => {
+                        let inf = refdec::parse_streaminfo(&b);
+                        if inf.total != total {
+                            out.violation("C03|total-samples|giant", format!("STREAMINFO states {} samples, the source handed over {total}", inf.total), rp());
+                        }
+                        if inf.md5 != want_md5 {
+                            out.violation("C03|md5|giant", format!("STREAMINFO MD5 {:02x?} expected {:02x?}", inf.md5, want_md5), rp());
+                        }
+                        if stream.stream_info().total_samples() as u64 != total {
+                            out.violation("C03|accessors-vs-bytes", format!("accessor total_samples() = {}", stream.stream_info().total_samples()), rp());
+                        }
+                    }
+                    Err(e) => out.violation("C03|giant|write-error", format!("{e:?}").chars().take(200).collect::<String>(), rp()),
+                }
+                out.sample(json!({"sub": "giant", "case": desc, "frames": stream.frame_count()}));
+            }
+            Ok(Err(e)) => out.violation("C03|giant|encode-error", format!("{e}"), rp()),
+            Err(p) => out.violation(format!("C03|giant|encode-panic|{}", p.site()), p.short(), rp()),
+        }
+    });
+    // the 36-bit total-samples field on its own (every tier): totals around 2^32 and up to 2^36-1
+    // set through the public setter must be what the serialised STREAMINFO states
+    run_cases(ctx, "total36", 24, &mut out, |idx, out| {
+        let mut rng = Rng::for_case(ctx.seed, "C03.total36", idx);
+        let t: u64 = match idx {
+            0 => (1 << 32) - 1,
+            1 => 1 << 32,
+            2 => (1 << 32) + 1000,
+            3 => (1 << 36) - 1,
+            4 => 1 << 35,
+            5 => (1 << 33) + 1,
+            _ => rng.below(1 << 36),
+        };
+        let Ok(mut stream) = flacenc::component::Stream::new(44100, 2, 16) else { return };
+        stream.stream_info_mut().set_total_samples(t as usize);
+        out.evaluations += 1;
+        out.distinct.insert(t ^ 0x7036);
+        match enc::to_bytes(&stream) {
+            Ok(b) if b.len() >= 42 => {
+                let inf = refdec::parse_streaminfo(&b[8..42]);
+                if inf.total != t {
+                    out.violation("C03|total-samples|36bit-field", format!("set_total_samples({t}) is serialised as {}", inf.total), json!({"monitor": "C03", "sub": "total36", "index": idx, "seed": ctx.seed, "tier": ctx.tier.name(), "case": {"total": t}}));
+                }
+                if inf.rate != 44100 || inf.channels != 2 || inf.bps != 16 {
+                    out.violation("C03|format-fields", format!("format fields disturbed by a total of {t}: rate {} ch {} bps {}", inf.rate, inf.channels, inf.bps), json!({"monitor": "C03", "sub": "total36", "index": idx, "seed": ctx.seed, "tier": ctx.tier.name(), "case": {"total": t}}));
+                }
+            }
+            _ => out.count("total36_not_serialised"),
         }
     });
     // negative extremes at non-byte widths, explicit
